@@ -85,13 +85,17 @@ def garbage_zoo(rnd):
     return zoo
 
 
-def payload_damages(data, rnd):
-    """(name, bytes) damaged versions of one table payload."""
+def payload_damages(data, rnd, short=(4, 8, 10, 13)):
+    """(name, bytes) damaged versions of one table payload; `short` are extra truncation lengths near the
+    sizes of the fixed headers that writers and readers poke into (head.checkSumAdjustment at 8..12, ...)."""
     n = len(data)
     out = []
     for name, cut in (("trunc0", 0), ("trunc1", 1), ("trunc-half", n // 2), ("trunc-last", n - 1)):
         if 0 <= cut < n:
             out.append((name, data[:cut]))
+    for cut in short:
+        if 1 < cut < n - 1 and cut != n // 2:
+            out.append(("trunc%d" % cut, data[:cut]))
     if n:
         b = bytearray(data)
         for _ in range(8):
@@ -103,4 +107,52 @@ def payload_damages(data, rnd):
         if d not in seen:
             seen.add(d)
             uniq.append((name, d))
+    return uniq
+
+
+# (offset, size) of the length / offset / count fields of each container header
+_FIELDS = {
+    "sfnt": [(4, 2)],
+    "ttc": [(4, 4), (8, 4)],
+    "woff": [(8, 4), (12, 2), (16, 4), (24, 4), (28, 4), (32, 4), (36, 4), (40, 4)],
+    "woff2": [(8, 4), (12, 2), (16, 4), (20, 4), (28, 4), (32, 4), (36, 4), (40, 4), (44, 4)],
+}
+
+
+def field_corruptions(data, max_entries=6):
+    """(offset, replacement bytes, description): every count/length/offset field of the header, and of the
+    first directory entries, set to boundary values (0, 1, 4, size-1, size, size+1, 0x7FFF.., 0xFFFF..)."""
+    r = S.regions(data)
+    c = r["container"]
+    n = len(data)
+    fields = list(_FIELDS[c])
+    if c == "sfnt":
+        nt = int.from_bytes(data[4:6], "big")
+        for i in range(min(nt, max_entries)):
+            fields += [(12 + 16 * i + 8, 4), (12 + 16 * i + 12, 4)]
+    elif c == "ttc":
+        nf = int.from_bytes(data[8:12], "big")
+        for i in range(min(nf, max_entries)):
+            fields.append((12 + 4 * i, 4))
+        for a, b in r["dir"][1:2]:
+            fields += [(a + 4, 2), (a + 12 + 8, 4), (a + 12 + 12, 4)]
+    elif c == "woff":
+        nt = int.from_bytes(data[12:14], "big")
+        for i in range(min(nt, max_entries)):
+            fields += [(44 + 20 * i + 4, 4), (44 + 20 * i + 8, 4), (44 + 20 * i + 12, 4)]
+    out = []
+    for off, size in fields:
+        if off + size > n:
+            continue
+        cur = int.from_bytes(data[off:off + size], "big")
+        top = (1 << (8 * size)) - 1
+        for v in (0, 1, 4, n - 1, n, n + 1, cur + 1, max(cur - 1, 0), top >> 1, top):
+            v &= top
+            if v != cur:
+                out.append((off, v.to_bytes(size, "big"), "field@%d(%d bytes):=%d" % (off, size, v)))
+    seen, uniq = set(), []
+    for o in out:
+        if (o[0], o[1]) not in seen:
+            seen.add((o[0], o[1]))
+            uniq.append(o)
     return uniq
